@@ -78,7 +78,12 @@ func c12AddCompanion(m protoreflect.Message) {
 				started := &historypb.HistoryEvent{EventId: 99, Attributes: &historypb.HistoryEvent_WorkflowExecutionStartedEventAttributes{
 					WorkflowExecutionStartedEventAttributes: &historypb.WorkflowExecutionStartedEventAttributes{Identity: "companion"}}}
 				vfshared.FixEventType(started)
-				evs = append(evs, started)
+				// ... and a skip-listed event (no namespace field at all) in front: the batch mixes events the shortcut may
+				// skip with events it may not
+				timer := &historypb.HistoryEvent{EventId: 97, Attributes: &historypb.HistoryEvent_TimerStartedEventAttributes{
+					TimerStartedEventAttributes: &historypb.TimerStartedEventAttributes{TimerId: "companion-timer"}}}
+				vfshared.FixEventType(timer)
+				evs = append(append([]*historypb.HistoryEvent{timer}, evs...), started)
 				nb := vfshared.EncodeEvents(evs)
 				bm.Set(bm.Descriptor().Fields().ByName("data"), protoreflect.ValueOfBytes(nb.Data))
 			}
